@@ -1,6 +1,271 @@
-"""Scenario-level correspondence shared by the checks (filled in as the model grows)."""
-from .. import lib
+"""Scenario-level correspondence + property oracles + shrinking, shared by the checks."""
+import collections
+import copy
+import json
+import os
+
+from .. import lib, scen, runner, declgen
+
+CORPUS = os.path.join(lib.VERIF, "corpus")
 
 
-def scenario_stream(rep, rng, pid, tier):
+def hide_help(d):
+    """until Help is modelled byte-exactly inside ParseArgs, ErrHelp is compared by type only"""
+    d = dict(d)
+    if d.get("err", "").startswith("F:5:"):
+        d["err"] = "F:5:"
+        if "out" in d:
+            d["out"] = "1:" if d["out"].startswith("1:") else d["out"]
+    return d
+
+
+def err_class(o):
+    e = o.get("err", "")
+    if e in ("nil", ""):
+        return "ok"
+    return e.split(":")[0] + (":" + e.split(":")[1] if e[0] in "FI" else "")
+
+
+def scenario_json(sc):
+    """JSON-able copy (bytes -> latin-1 strings) used in replay files and the corpus"""
+    def conv(x):
+        if isinstance(x, bytes): return {"b": lib.l1(x)}
+        if isinstance(x, dict): return {str(k): conv(v) for k, v in x.items() if k != "meta"}
+        if isinstance(x, (list, tuple)): return [conv(v) for v in x]
+        return x
+    return conv(sc)
+
+
+def scenario_unjson(j):
+    def conv(x, key=None):
+        if isinstance(x, dict):
+            if set(x.keys()) == {"b"}: return lib.unl1(x["b"])
+            d = {}
+            for k, v in x.items():
+                d[int(k) if key == "init" else k] = conv(v, k)
+            return d
+        if isinstance(x, list):
+            return [conv(v) for v in x]
+        return x
+    sc = conv(j)
+    # tuples for types / values
+    def tup(x):
+        if isinstance(x, list) and x and isinstance(x[0], str) and x[0] in ("k", "ptr", "slice", "map", "func", "b", "i", "s", "f", "p", "l", "m", "fn"):
+            return tuple(tup(v) for v in x)
+        if isinstance(x, list): return [tup(v) for v in x]
+        if isinstance(x, dict): return {k: tup(v) for k, v in x.items()}
+        return x
+    sc = tup(sc)
+    def fix_fields(fs):
+        for f in fs:
+            if "struct" in f: fix_fields(f["struct"]["fields"])
+    sc["cfg"]["env"] = [tuple(e) for e in sc["cfg"].get("env", [])]
+    return sc
+
+
+def shrink_candidates(sc):
+    """one-step reductions of a scenario"""
+    out = []
+    for oi, o in enumerate(sc["ops"]):
+        if o["op"] in ("parse", "complete"):
+            for i in range(len(o["args"])):
+                c = copy.deepcopy(sc); del c["ops"][oi]["args"][i]; out.append(c)
+            for i, a in enumerate(o["args"]):
+                if len(a) > 2:
+                    c = copy.deepcopy(sc); c["ops"][oi]["args"][i] = a[:len(a) // 2 + 1]; out.append(c)
+        if len(sc["ops"]) > 1:
+            c = copy.deepcopy(sc); del c["ops"][oi]; out.append(c)
+    for ai in range(len(sc["attach"]) - 1, -1, -1):
+        c = copy.deepcopy(sc)
+        path = c["attach"][ai]["path"]
+        del c["attach"][ai]
+        out.append(c)
+
+    def field_lists(s):
+        ls = []
+        if s["data"] is not None: ls.append(s["data"])
+        for a in s["attach"]: ls.append(a["fields"])
+        return ls
+
+    def rec(fs, acc):
+        acc.append(fs)
+        for f in fs:
+            if "struct" in f: rec(f["struct"]["fields"], acc)
+    base_lists = []
+    for fl in field_lists(sc): rec(fl, base_lists)
+    for li, fl in enumerate(base_lists):
+        for fi in range(len(fl)):
+            c = copy.deepcopy(sc)
+            cl = []
+            for x in field_lists(c): rec(x, cl)
+            del cl[li][fi]
+            out.append(c)
+    if sc["cfg"].get("env"):
+        c = copy.deepcopy(sc); c["cfg"]["env"] = []; out.append(c)
+    for k, v in sc["cfg"]["opts"].items():
+        if v:
+            c = copy.deepcopy(sc); c["cfg"]["opts"][k] = False; out.append(c)
+    return out
+
+
+def valid_scenario(sc):
+    """attach paths must stay valid after deletions"""
+    counts = {(): 0}
+    # count tag-declared top-level commands is not possible here cheaply; be conservative: keep only if every
+    # attach path refers to commands created by earlier attach ops or is the root
+    created = {(): True}
+    n_children = collections.Counter()
+
+    def tagcmds(fs):
+        n = 0
+        for f in fs:
+            if "struct" in f and b'command:"' in f["tag"]:
+                n += 1
+            elif "struct" in f and b'group:"' not in f["tag"] and b"positional-args" not in f["tag"]:
+                n += tagcmds(f["struct"]["fields"])
+        return n
+    if sc["data"] is not None:
+        n_children[()] = tagcmds(sc["data"])
+    for a in sc["attach"]:
+        p = tuple(a["path"])
+        if p not in created:
+            return False
+        if a["kind"] == "command":
+            idx = n_children[p]
+            n_children[p] += 1
+            created[p + (idx,)] = True
+            n_children[p + (idx,)] = tagcmds(a["fields"])
+        else:
+            n_children[p] += tagcmds(a["fields"])
     return True
+
+
+def evaluate(scs):
+    go = runner.run_impl(scs)
+    mod, _ = runner.run_model(scs)
+    return go, mod
+
+
+def shrink(sc, still_fails, rounds=8, width=60):
+    """greedy batch shrinking; still_fails(list of scenarios) -> list of bool"""
+    cur = sc
+    for _ in range(rounds):
+        cands = [c for c in shrink_candidates(cur) if valid_scenario(c)][:width]
+        if not cands:
+            break
+        flags_ = still_fails(cands)
+        nxt = None
+        for c, f in zip(cands, flags_):
+            if f:
+                nxt = c
+                break
+        if nxt is None:
+            break
+        cur = nxt
+    return cur
+
+
+def load_corpus(pid):
+    d = os.path.join(CORPUS, pid)
+    out = []
+    if os.path.isdir(d):
+        for fn in sorted(os.listdir(d)):
+            if fn.endswith(".json"):
+                out.append((fn, scenario_unjson(json.load(open(os.path.join(d, fn)))["scenario"])))
+    return out
+
+
+def scenario_check(rep, rng, pid, n, profile=None, keys=runner.ALL_KEYS, transform=hide_help, oracle=None,
+                   nontrivial=None, n_parses=1, stream="parse", make=None, theorem_names="", known=None, batch=2000):
+    """Generate n scenarios, run both sides, compare the projection `keys`, evaluate the property oracle.
+    oracle(sc, go_result) -> None | str (property violated on the implementation).
+    known(sc, go_result, diff_or_oraclemsg) -> None | str (text of a KNOWN_FINDINGS entry that explains it).
+    Returns True if nothing (new) was found."""
+    corpus = load_corpus(pid)
+    scs = [sc for _, sc in corpus]
+    for _ in range(n):
+        if make is not None:
+            scs.append(make(rng))
+        else:
+            scs.append(declgen.Gen(rng, profile).gen_scenario(n_parses=n_parses))
+    hist = collections.Counter()
+    status = collections.Counter()
+    ok = True
+    for start in range(0, len(scs), batch):
+        part = scs[start:start + batch]
+        go, mod = evaluate(part)
+        for sc, g, m in zip(part, go, mod):
+            st = runner.model_status(m)
+            status[st] += 1
+            triv = not g["ops"]
+            for o in g["ops"]:
+                hist[err_class(o)] += 1
+            key = json.dumps(scenario_json(sc), sort_keys=True)
+            nt = (not triv) if nontrivial is None else nontrivial(sc, g)
+            rep.count(key, nontrivial=nt)
+            if len(rep.cov["samples"]) < 4 and nt:
+                rep.sample({"stream": stream, "ops": [[lib.l1(a) for a in o.get("args", [])] for o in sc["ops"]],
+                            "parser_options": [k for k, v in sc["cfg"]["opts"].items() if v],
+                            "impl": [{k: o.get(k) for k in ("err", "ret", "active")} for o in g["ops"]][:2]})
+            if g.get("fatal"):
+                rep.violation("harness failure: " + g["fatal"], {"kind": "machinery", "scenario": scenario_json(sc), "fatal": g["fatal"]}, no_input=True)
+                return False
+            # property oracle on the implementation alone
+            msg = oracle(sc, g) if oracle else None
+            if msg:
+                kf = known(sc, g, msg) if known else None
+                if kf:
+                    rep.known_finding(kf)
+                else:
+                    def still_o(cands):
+                        gg = runner.run_impl(cands)
+                        return [(not a.get("fatal")) and bool(oracle(c, a)) for c, a in zip(cands, gg)]
+                    sc = shrink(sc, still_o, rounds=40, width=200)
+                    g = runner.run_impl([sc])[0]
+                    msg = oracle(sc, g) or msg
+                    rep.violation("%s: property oracle failed: %s" % (pid, msg),
+                                  {"kind": "property-oracle", "property": pid, "what": msg, "scenario": scenario_json(sc), "impl": g,
+                                   "replay": "bin/check %s --replay <this file>" % pid})
+                    ok = False
+                    return False
+            if st != "ok":
+                continue
+            diff = runner.compare(g, m, keys=keys, transform=transform)
+            if diff:
+                kf = known(sc, g, diff) if known else None
+                if kf:
+                    rep.known_finding(kf)
+                    continue
+                # shrink on "still differs on the projection"
+                def still(cands):
+                    gg, mm = evaluate(cands)
+                    return [runner.model_status(b) == "ok" and runner.compare(a, b, keys=keys, transform=transform) is not None for a, b in zip(gg, mm)]
+                small = shrink(sc, still)
+                g2, m2 = evaluate([small])
+                d2 = runner.compare(g2[0], m2[0], keys=keys, transform=transform) or diff
+                # the theorem says the model's answer is the one the property demands: inside the guard a
+                # different implementation answer is a property failure with this scenario as the failing input
+                rep.violation("%s: implementation differs from the proven model at %s (impl=%s model=%s)" % (
+                                  pid, d2["where"], str(d2.get("impl"))[:120], str(d2.get("model"))[:120]),
+                              {"kind": "model-vs-implementation", "property": pid, "theorems": theorem_names, "diff": d2,
+                               "scenario": scenario_json(small), "impl": g2[0], "model": m2[0],
+                               "replay": "bin/check %s --replay <this file>" % pid})
+                return False
+            rep.cov["traces_validated_against_impl"] += 1
+    rep.extra.setdefault("outcome_histogram", {}).update({stream + ":" + k: v for k, v in hist.items()})
+    rep.extra.setdefault("model_status", {}).update({stream + ":" + k: v for k, v in status.items()})
+    return ok
+
+
+def replay(rep, pid, path, keys=runner.ALL_KEYS, transform=hide_help, oracle=None):
+    j = json.load(open(path))
+    if "scenario" not in j:
+        print("replay file has no scenario: " + j.get("kind", "?"))
+        return
+    sc = scenario_unjson(j["scenario"])
+    go, mod = evaluate([sc])
+    diff = runner.compare(go[0], mod[0], keys=keys, transform=transform)
+    msg = oracle(sc, go[0]) if oracle else None
+    print(json.dumps({"impl": go[0], "model": mod[0], "diff": diff, "oracle": msg}, indent=1)[:6000])
+    if diff or msg:
+        rep.violation("replayed: " + (msg or str(diff["where"])), j)
